@@ -7,7 +7,7 @@ from pipeline import run_pipeline
 
 TIERS = {
     "quick": dict(mc=[("MC_SampleCache_q_all.cfg", 8), ("MC_SampleCache_q_d1.cfg", 8), ("MC_SampleCache_q_two.cfg", 8), ("MC_SampleCache_q_rtx.cfg", 8), ("MC_SampleCache_q_bad.cfg", 4)], replay_limit=9000, random=dict(runs=400, events=30)),
-    "thorough": dict(mc=[("MC_SampleCache_t_all.cfg", 12), ("MC_SampleCache_t_d2.cfg", 12), ("MC_SampleCache_t_bad.cfg", 12), ("MC_SampleCache_q_d1.cfg", 8), ("MC_SampleCache_q_two.cfg", 8), ("MC_SampleCache_q_rtx.cfg", 8)], replay_limit=80000, random=dict(runs=6000, events=40)),
+    "thorough": dict(mc=[("MC_SampleCache_t_all.cfg", 12), ("MC_SampleCache_t_d2.cfg", 12), ("MC_SampleCache_t_bad.cfg", 12), ("MC_SampleCache_q_d1.cfg", 8), ("MC_SampleCache_q_two.cfg", 8), ("MC_SampleCache_q_rtx.cfg", 8)], replay_limit=30000, random=dict(runs=4000, events=40)),
 }
 ASSUME = [
     "state space bounded by the constants in spec/MC_SampleCache_*.cfg (instances, writers, arrivals, calls, forms, History depth); in the model arrivals are in order per writer and the reader is best-effort, so hand-over order = reception order",
@@ -30,7 +30,7 @@ def run_c09(pid, tier, seed, replay):
     t0 = time.time()
     d = clean_dir(outdir(pid, "work"))
     build_harness()
-    n = 330 if tier == "quick" else 3300
+    n = 330 if tier == "quick" else 2200
     sf = os.path.join(d, "specs.jsonl")
     mc_detail, n_tlc = [], 0
     if replay is None:
@@ -46,7 +46,7 @@ def run_c09(pid, tier, seed, replay):
             log(f"[mc] {c}: {info['states']} distinct states, {info['transitions']} transitions")
             outs.append(o)
         rp = os.path.join(d, "tlc_replays.jsonl")
-        n_tlc, _ = extract_replays("\n".join(outs), rp, limit=(1500 if tier == "quick" else 30000), seed=seed)
+        n_tlc, _ = extract_replays("\n".join(outs), rp, limit=(1500 if tier == "quick" else 12000), seed=seed)
         with open(sf, "a") as f:
             for line in open(rp):
                 r = json.loads(line)
